@@ -459,6 +459,44 @@ def St.blocks (w : Words) (s : St) : List (Int × Int) :=
     (s.offL, s.capL * w.dw), (s.offU, s.capU * w.dw), (s.offS, s.capS * w.liw), (s.offB, s.capB * w.liw),
     (s.dwork, s.dworkLen), (s.iwork, s.iworkLen) ]
 
+/-! ### Contents: what `expand` moves (C07) -/
+
+/-- memory as bytes of an abstract type `β`: block number (0 = the caller's workspace, `k > 0` = the
+`k`-th block obtained from `SUPERLU_MALLOC` in `[sdcz]memory.c`) and byte offset -/
+abbrev Store (β : Type) := Nat → Int → β
+
+/-- `user_bcopy(src, dest, bytes)` (memory.c:138-146): the byte loop runs from the last byte down to
+the first, inside one block; `bcopyDesc src dst n m` performs the iterations for indices `n-1 … 0` -/
+def bcopyDesc {β : Type} (src dst : Int) : Nat → (Int → β) → (Int → β)
+  | 0, m => m
+  | n+1, m => bcopyDesc src dst n (fun a => if a = dst + Int.ofNat n then m (src + Int.ofNat n) else m a)
+
+/-- the array that follows `t` in a workspace -/
+def MemType.next : MemType → MemType
+  | .LUSUP => .UCOL | .UCOL => .LSUB | .LSUB => .USUB | .USUB => .USUB
+
+/-- block and byte offset of array `t` -/
+def St.blk (s : St) (t : MemType) : Nat := if s.user = true then 0 else (s.off t).toNat
+def St.boff (s : St) (t : MemType) : Int := if s.user = true then s.off t else 0
+
+/-- byte `j` of array `t` -/
+def rbyte {β : Type} (σ : Store β) (s : St) (t : MemType) (j : Int) : β := σ (s.blk t) (s.boff t + j)
+
+/-- the data movement of `dexpand` between the state before (`s`) and after (`s'`) a successful call:
+workspace — `user_bcopy` of everything between the next array and `top1` by `extra` bytes
+(dmemory.c:597-600; nothing for USUB); library allocation — `copy_mem_int/copy_mem_double` of
+`len_to_copy` elements into the new block (dmemory.c:550-554) -/
+def moveStore {β : Type} (w : Words) (t : MemType) (lenToCopy : Int) (s s' : St) (σ : Store β) : Store β :=
+  if s.user = true then
+    match t with
+    | .USUB => σ
+    | _ =>
+      let src := s.off t.next
+      let extra := s'.off t.next - src
+      fun b => if b = 0 then bcopyDesc src (src + extra) (s.top1 - src).toNat (σ 0) else σ b
+  else
+    fun b a => if b = s'.blk t ∧ 0 ≤ a ∧ a < lenToCopy * w.lword t then σ (s.blk t) a else σ b a
+
 /-! ### QuerySpace (B level) -/
 
 /-- `dQuerySpace` (dmemory.c:111-139): `(for_lu, total_needed)` as float bit patterns.
